@@ -275,8 +275,10 @@ def verify_unit(here, repo, unit, tmp, seed, tier):
         raise Undecided("verus (vacuity pass) produced no JSON: " + "\n".join(vres["raw"])[-1500:])
     failed_lines = set()
     for d in vres["diags"]:
-        if d.get("level") == "error" and d.get("code"):
-            raise Undecided("compile error in vacuity unit: " + d.get("rendered", "")[:2000])
+        if d.get("level") == "error":
+            m = d.get("message", "")
+            if d.get("code") or not (m.startswith("aborting due to") or any(m.startswith(v) or v in m for v in VERIFY_MSGS) or any(u in m for u in UNDECIDED_MSGS)):
+                raise Undecided("compile error in vacuity unit: " + d.get("rendered", "")[:2000])
         for s in d.get("spans", []):
             failed_lines.add(s["line_start"])
     vac_obs = []
